@@ -15,7 +15,8 @@ import random
 GENERIC_WORKER = [["read_declared"], ["write_declared"]]
 
 
-def worker_script(dyn_inp=(), dyn_out=(), hold_steps=None, fail=False, unlink=()):
+def worker_script(dyn_inp=(), dyn_out=(), hold_steps=None, fail=False, unlink=(), const_out=False,
+                  clobber=None):
     ops = []
     if dyn_inp:
         ops.append(["amend", {"inp": list(dyn_inp)}])
@@ -25,7 +26,9 @@ def worker_script(dyn_inp=(), dyn_out=(), hold_steps=None, fail=False, unlink=()
         ops.append(["amend", {"out": list(dyn_out)}])
     ops.append(["read_declared"])
     ops.append(["getenv_declared"])
-    ops.append(["write_declared"])
+    ops.append(["write_declared", "const"] if const_out else ["write_declared"])
+    if clobber:
+        ops.append(["write", clobber, "clobbered by a consumer\n"])
     for p in dyn_out:
         ops.append(["write", p])
     if fail:
@@ -121,6 +124,112 @@ def shape_subplan_noinp():
             "A": GENERIC_WORKER,
             "B": GENERIC_WORKER,
             "C": GENERIC_WORKER,
+        },
+    }
+
+
+def shape_detach_running_fail():
+    """WORK creates SUB on its first attempt only, is deferred on late.txt, reruns without SUB."""
+    return {
+        "name": "detach_running_fail",
+        "schedule_dependent": True,  # scripts look at the file system: excluded from relational checks
+        "sources": {"plan.py": ["v1"], "s1.txt": ["a", "b"]},
+        "scripts": {
+            "./plan.py": {
+                "on": "plan.py",
+                "versions": {
+                    "v1": [
+                        ["static", ["s1.txt"]],
+                        ["step", "LATE", {"inp": ["s1.txt"], "out": ["late.txt"]}],
+                        ["step", "WORK", {"inp": ["s1.txt"], "out": ["work.txt"], "need": "PLAN"}],
+                    ]
+                },
+            },
+            "LATE": GENERIC_WORKER,
+            "WORK": [
+                ["if_exists", "late.txt", [], [["step", "SUB", {"out": ["sub.txt"]}]]],
+                ["amend", {"inp": ["late.txt"]}],
+                ["read", "late.txt"],
+                ["read_declared"],
+                ["write_declared"],
+            ],
+            "SUB": [["write", "sub.txt"], ["nop"], ["nop"], ["nop"], ["exit", 1]],
+        },
+    }
+
+
+def shape_amend_unchanged_output():
+    """T starts amending b.txt only after cfg.txt changed; S reproduces an identical b.txt."""
+    return {
+        "name": "amend_unchanged_output",
+        "sources": {"plan.py": ["v1"], "a.txt": ["a", "b"], "cfg.txt": ["plain", "useb"]},
+        "scripts": {
+            "./plan.py": {
+                "on": "plan.py",
+                "versions": {
+                    "v1": [
+                        ["static", ["a.txt", "cfg.txt"]],
+                        ["step", "T", {"inp": ["cfg.txt"], "out": ["c.txt"]}],
+                        ["step", "S", {"inp": ["a.txt"], "out": ["b.txt"]}],
+                    ]
+                },
+            },
+            "S": [["read_declared"], ["write_declared", "const"]],
+            "T": [
+                ["if_version", "cfg.txt", "useb", [["amend", {"inp": ["b.txt"]}], ["read", "b.txt"]]],
+                ["read_declared"],
+                ["write_declared"],
+            ],
+        },
+    }
+
+
+def shape_detach_running_same_output():
+    """SUBP creates S and is deferred on late.txt; its rerun detaches S while S may be running."""
+    return {
+        "name": "detach_running_same_output",
+        "sources": {"plan.py": ["v1"], "s1.txt": ["a", "b"]},
+        "scripts": {
+            "./plan.py": {
+                "on": "plan.py",
+                "versions": {
+                    "v1": [
+                        ["static", ["s1.txt"]],
+                        ["step", "SUBP", {"need": "PLAN"}],
+                        ["step", "LATE", {"inp": ["s1.txt"], "out": ["late.txt"]}],
+                    ]
+                },
+            },
+            "SUBP": [
+                ["step", "S", {"inp": ["s1.txt"], "out": ["o.txt"]}],
+                ["amend", {"inp": ["late.txt"]}],
+                ["read", "late.txt"],
+            ],
+            "S": [["read_declared"], ["nop"], ["nop"], ["write_declared", "const"]],
+            "LATE": GENERIC_WORKER,
+        },
+    }
+
+
+def shape_creator_fails_while_child_runs():
+    """plan v2 defines the same steps and then fails while S (re)runs; v1 again recycles S."""
+    steps = [
+        ["static", ["s1.txt"]],
+        ["step", "S", {"env": ["VV_A"], "out": ["o.txt"]}],
+        ["step", "U", {"inp": ["o.txt", "s1.txt"], "out": ["u.txt"]}],
+    ]
+    return {
+        "name": "creator_fails_while_child_runs",
+        "schedule_dependent": True,
+        "sources": {"plan.py": ["v1", "v2", "v1"], "s1.txt": ["a"]},
+        "env_edits": [["env", "VV_A", "x"]],
+        "scripts": {
+            "./plan.py": {
+                "on": "plan.py",
+                "versions": {"v1": steps, "v2": steps + [["nop"], ["nop"], ["exit", 1]]},
+            },
+            "S": [["getenv_declared"], ["nop"], ["nop"], ["write_declared", "const"]],
+            "U": GENERIC_WORKER,
         },
     }
 
@@ -264,6 +373,10 @@ SHAPES = {
         shape_chain,
         shape_subplan_readd,
         shape_subplan_noinp,
+        shape_detach_running_fail,
+        shape_amend_unchanged_output,
+        shape_detach_running_same_output,
+        shape_creator_fails_while_child_runs,
         shape_hold,
         shape_amend,
         shape_optional,
@@ -314,6 +427,9 @@ class Gen:
             "fail": 0.05,
             "dyn_out": 0.1,
             "workdir": 0.1,
+            "const_out": 0.15,
+            "clobber": 0.04,
+            "late_subplan": 0.3,
         }
 
     def flip(self, name):
@@ -357,10 +473,21 @@ class Gen:
             if self.flip("resources"):
                 decl["resources"] = {rng.choice(["gpu", "gpu", "tpu"]): rng.choice([1, 1, 2])}
             workers[name] = {"decl": decl, "where": rng.randrange(0, nsub + 1)}
-            scripts[name] = worker_script(dyn_inp=dyn, dyn_out=dyn_out, fail=self.flip("fail"))
+            built_inputs = [p for p in inp if not p.startswith(("s", "data/"))]
+            scripts[name] = worker_script(
+                dyn_inp=dyn, dyn_out=dyn_out, fail=self.flip("fail"), const_out=self.flip("const_out"),
+                clobber=rng.choice(built_inputs) if built_inputs and self.flip("clobber") else None,
+            )
             scripts[name].extend([["write", v] for v in vol])
             avail_inputs.extend(out)
+        late = {}
+        for si in range(nsub):
+            if self.flip("late_subplan"):
+                outs = [w["decl"]["out"][0] for n, w in workers.items() if w["where"] != si + 1]
+                if outs:
+                    late[si + 1] = rng.choice(outs)
         base = {
+            "late": late,
             "workers": workers,
             "active": {w: True for w in workers},
             "static": list(sources),
@@ -462,6 +589,11 @@ class Gen:
             ops.append(["step", w, copy.deepcopy(cfg["workers"][w]["decl"])])
         if cfg["hold"] and where == 0 and mine:
             ops.append(["release"])
+        if where in cfg.get("late", {}):
+            # the sub-plan reads a built file: it is deferred until the producer is done and then
+            # runs again, detaching (and re-declaring) the steps it created, possibly while they run
+            ops.append(["amend", {"inp": [cfg["late"][where]]}])
+            ops.append(["read", cfg["late"][where]])
         return ops
 
     def history(self, project, nphases=4, watch_p=0.3, cfgs=None) -> list[dict]:
